@@ -37,6 +37,9 @@ func main() {
 	typedStates += maph.ExploreTyped(r, run, spell.Complex).States
 	typedStates += maph.ExploreTyped(r, run, spell.Pointers).States
 	typedStates += maph.ExploreTyped(r, run, spell.Int8).States
+	typedStates += maph.ExploreTyped(r, run, spell.AnyAlike).States
+	typedStates += maph.ExploreTyped(r, run, spell.StringAlike).States
+	typedStates += maph.ExploreTyped(r, run, spell.FloatAlike).States
 	r.Set("key_type_states", typedStates)
 	// Large-map family: scripted single-goroutine histories over 5..200 keys (promotion thresholds
 	// that depend on the size of the dirty map, tombstones left behind in a large read map,
